@@ -451,6 +451,10 @@ def tie_signatures(ctx: Ctx) -> None:
         # what the source signature is, by CPython's own reading of the source
         srcparse = py_parse_sig(("async " if c.is_async else "") + f"def {c.name}({plist}):")
         ctx.count("traces_validated_against_impl")
+        # PEP 484: a leading run of positional parameters named `__x` is positional-only for mypy (and stubtest)
+        srcparse_conv = pep484_parse(srcparse)
+        if rparse == srcparse_conv:
+            srcparse = srcparse_conv
         same = (rhead == want_head) and ("(" + rplist + ")" == mtext) and (rparse == mparse)
         if same and (rparse == srcparse or c.name in _magic()):
             continue
@@ -492,6 +496,22 @@ def tie_signatures(ctx: Ctx) -> None:
                               found_input=bool(broken))
     ctx.sample({"sig_case": sig_source(cases[7])[0], "real": real_lines.get(7), "model": model[7]})
     ctx.coverage["sig_disagreements"] = ndiff
+
+
+def pep484_parse(parse: str) -> str:
+    if parse in ("SyntaxError", ""):
+        return parse
+    out, prefix = [], True
+    for item in parse.split(","):
+        n, k, d = item.split(":")
+        if prefix and k == "posonly":
+            pass
+        elif prefix and k == "pos" and is_elided(n):
+            k = "posonly"
+        else:
+            prefix = False
+        out.append(f"{n}:{k}:{d}")
+    return ",".join(out)
 
 
 def json_key(d: dict) -> str:
@@ -588,7 +608,7 @@ def py_tokens(text: str) -> list[str] | None:
     res = []
     for ty, s in out:
         if ty == tokenize.NAME:
-            res.append("kw:" + s if s in ("None", "True", "False") else "name:" + s)
+            res.append("kw:" + s if s in ("None", "True", "False") else "op:not" if s == "not" else "name:" + s)
         elif ty == tokenize.NUMBER:
             res.append("num:" + s)
         elif ty == tokenize.STRING:
